@@ -174,7 +174,9 @@ def string_spellings(rng, n):
                 elif k < 0.35 and cp < 0x10000:
                     lit.append("\\u%04X" % cp)
                 elif k < 0.5:
-                    lit.append("\\u{%x}" % cp)
+                    # braced escape: any number of leading zeros, either hex digit case
+                    hx = ("0" * rng.choice([0, 0, 0, 1, 2, 3, 4, 5, 8, 20])) + "%x" % cp
+                    lit.append("\\u{%s}" % "".join(c.upper() if rng.random() < 0.5 else c for c in hx))
                 elif cp < 32 or ch == "\x7f":
                     lit.append("\\x%02X" % cp)
                 elif k < 0.6 and ch.isalpha() and ch not in "bfnrtvxu0":
